@@ -24,7 +24,8 @@ CONSTANTS RPs, RBs,        \* values of REKEY_PACKETS, REKEY_BYTES explored
 VARIABLES lim,             \* [rp, rb, op, ob]: the four limits of this Packetizer (instance attributes), fixed
           coop,
           sp, sb, rp, rb,  \* sent / received packets, bytes under the current keys
-          op, ob,          \* received packets / bytes since we asked for a re-key
+          op, ob,          \* received packets / bytes since we asked for a re-key (the code's overflow counters)
+          gp, gb,          \* the same quantity counted by the specification itself (ghost): what the allowance is about
           need,            \* Packetizer.__need_rekey
           initc,           \* Packetizer.__init_count (bit 1 = outbound switched, bit 2 = inbound switched)
           inkex,           \* Transport.in_kex
@@ -36,7 +37,7 @@ VARIABLES lim,             \* [rp, rb, op, ob]: the four limits of this Packetiz
           wire,            \* peer -> us, unread
           pinit, pnew,     \* peer: its KEXINIT / NEWKEYS of the current round is on the wire or was read
           kexdone          \* the first key exchange is complete (encryption is on)
-pvars == <<sp, sb, rp, rb, op, ob, need, initc>>
+pvars == <<sp, sb, rp, rb, op, ob, gp, gb, need, initc>>
 vars  == <<lim, coop, pvars, inkex, cts, haveinit, alive, tloc, todo, wire, pinit, pnew, kexdone>>
 
 RP == lim.rp
@@ -44,7 +45,7 @@ RB == lim.rb
 OP == lim.op
 OB == lim.ob
 InitRest ==
-        /\ sp = 0 /\ sb = 0 /\ rp = 0 /\ rb = 0 /\ op = 0 /\ ob = 0 /\ need = FALSE /\ initc = 0
+        /\ sp = 0 /\ sb = 0 /\ rp = 0 /\ rb = 0 /\ op = 0 /\ ob = 0 /\ gp = 0 /\ gb = 0 /\ need = FALSE /\ initc = 0
         /\ inkex = FALSE /\ cts = TRUE /\ haveinit = FALSE /\ alive = TRUE
         /\ tloc = "start" /\ todo = <<>> /\ wire = <<>> /\ pinit = FALSE /\ pnew = FALSE /\ kexdone = FALSE
 Init == lim \in [rp : RPs, rb : RBs, op : OPs, ob : OBs] /\ coop \in Coops /\ InitRest
@@ -53,25 +54,28 @@ Init == lim \in [rp : RPs, rb : RBs, op : OPs, ob : OBs] /\ coop \in Coops /\ In
 \* send_message, after the write: `if sent_too_much and not self.__need_rekey:` - the re-key is asked for ONCE;
 \* only then are the overflow counters cleared (they measure what the peer sends after being asked)
 TriggerOnSend(p, bts) ==
-    IF (p >= RP \/ bts >= RB) /\ (~need \/ ~AskOnce)
-      THEN need' = TRUE /\ op' = 0 /\ ob' = 0
-      ELSE UNCHANGED <<need, op, ob>>
+    /\ IF (p >= RP \/ bts >= RB) /\ (~need \/ ~AskOnce)
+         THEN need' = TRUE /\ op' = 0 /\ ob' = 0
+         ELSE UNCHANGED <<need, op, ob>>
+    /\ IF (p >= RP \/ bts >= RB) /\ ~need THEN gp' = 0 /\ gb' = 0 ELSE UNCHANGED <<gp, gb>>
 \* send_message: counters, then the trigger
 Count(len) == /\ sp' = sp + 1 /\ sb' = sb + len
               /\ TriggerOnSend(sp + 1, sb + len)
 \* read_message: counters; packets received after we asked for a re-key count against the allowance
 CountRecv(len) == /\ rp' = rp + 1 /\ rb' = rb + len
                   /\ IF need THEN /\ op' = op + 1 /\ ob' = ob + len /\ need' = need
+                                  /\ gp' = gp + 1 /\ gb' = gb + len
                              ELSE IF rp + 1 >= RP \/ rb + len >= RB
-                                    THEN need' = TRUE /\ op' = 0 /\ ob' = 0
-                                    ELSE UNCHANGED <<need, op, ob>>
+                                    THEN need' = TRUE /\ op' = 0 /\ ob' = 0 /\ gp' = 0 /\ gb' = 0
+                                    ELSE UNCHANGED <<need, op, ob, gp, gb>>
 \* ... and when the allowance is used up read_message raises instead of returning
 Overflows(len) == need /\ CheckOverflow /\ (op + 1 >= OP \/ ob + len >= OB)
 \* set_outbound_cipher
 SetOut == /\ IF ResetOnSet THEN sp' = 0 /\ sb' = 0 ELSE UNCHANGED <<sp, sb>>
           /\ IF initc = 2 THEN initc' = 0 /\ need' = FALSE ELSE initc' = 1 /\ need' = need
 \* set_inbound_cipher
-SetIn  == /\ IF ResetOnSet THEN rp' = 0 /\ rb' = 0 /\ op' = 0 /\ ob' = 0 ELSE UNCHANGED <<rp, rb, op, ob>>
+SetIn  == /\ IF ResetOnSet THEN rp' = 0 /\ rb' = 0 /\ op' = 0 /\ ob' = 0 /\ gp' = 0 /\ gb' = 0
+                           ELSE UNCHANGED <<rp, rb, op, ob, gp, gb>>
           /\ IF initc = 1 THEN initc' = 0 /\ need' = FALSE ELSE initc' = 2 /\ need' = need
 
 (* ---- user threads: _send_user_message waits for clear_to_send ---- *)
@@ -140,6 +144,7 @@ Work ==
                           need1 == need \/ trig IN
                       /\ IF ResetOnSet THEN sp' = 0 /\ sb' = 0 ELSE sp' = sp1 /\ sb' = sb1
                       /\ IF trig THEN op' = 0 /\ ob' = 0 ELSE UNCHANGED <<op, ob>>
+                      /\ IF trig /\ ~need THEN gp' = 0 /\ gb' = 0 ELSE UNCHANGED <<gp, gb>>
                       /\ IF initc = 2 THEN initc' = 0 /\ need' = FALSE ELSE initc' = 1 /\ need' = need1
                  /\ UNCHANGED <<rp, rb>>
                  /\ inkex' = IF need' THEN inkex ELSE FALSE
@@ -182,5 +187,7 @@ CountersRestart ==
        /\ (initc # 0 /\ initc' = 0) => ~need']_vars
 \* a peer that ignores the request is dropped no later than the packet that exhausts the allowance
 OverflowTerminates == alive => (op < OP /\ ob < OB)
+\* ... measured by what the peer really sent since it was asked, not by the code's own counters
+AllowanceIsReal    == alive => (gp < OP /\ gb < OB)
 RefuserDropped == (~coop /\ need /\ haveinit) ~> (~alive)
 =============================================================================
